@@ -77,3 +77,7 @@ func VerifClearRegistry() {
 		return true
 	})
 }
+
+// VerifPostIdleTask posts the idle-close task exactly as GetOrCreate does for a
+// route without keepalive.
+func VerifPostIdleTask(s *Stream) { runZeroConsumersCloseTask(s, StreamNoConsumer) }
